@@ -45,6 +45,8 @@ def load():
     from efootprint.abstract_modeling_classes.explainable_objects import (
         ExplainableQuantity, ExplainableHourlyQuantities, EmptyExplainableObject)
     from efootprint.abstract_modeling_classes.explainable_object_base_class import ExplainableObject, Source
+    from efootprint.abstract_modeling_classes.explainable_object_base_class import \
+        retrieve_update_function_from_mod_obj_and_attr_name as retrieve_update_function
     from efootprint.abstract_modeling_classes.explainable_object_dict import ExplainableObjectDict
     from efootprint.abstract_modeling_classes.modeling_object import ModelingObject
     from efootprint.abstract_modeling_classes.modeling_update import ModelingUpdate
